@@ -729,7 +729,9 @@ func hashDir(dir string) string {
 			fmt.Fprintf(&b, "%s:ERR;", e.Name())
 			continue
 		}
-		h := sha1.Sum(data)
+		// logical content: readSparse ends at the last allocated extent, and merely reading a hole
+		// through a mapping can allocate (zero) pages, so trailing zeros are not part of the identity
+		h := sha1.Sum(bytes.TrimRight(data, "\x00"))
 		fmt.Fprintf(&b, "%s:%d:%x;", e.Name(), size, h[:8])
 	}
 	return b.String()
